@@ -11,6 +11,7 @@ import (
 	"fmt"
 	"sort"
 	"sync"
+	"verifharness/fakeipfs"
 
 	"github.com/ipfs/go-cid"
 	ds "github.com/ipfs/go-datastore"
@@ -640,4 +641,44 @@ func IOFresh(c Codec, key int) iface.IO {
 		return baseCBOR().ApplyOptions(&cbor.Options{LinkKey: LinkKey(key)})
 	}
 	return IO(c, key)
+}
+
+var longChains = struct {
+	mu sync.Mutex
+	es map[string][]iface.IPFSLogEntry
+	rw map[string][][]byte
+}{es: map[string][]iface.IPFSLogEntry{}, rw: map[string][][]byte{}}
+
+// LongChain returns the first n entries (oldest first) of one long history written once per process by writer 4
+// with mixed pointer counts, and their stored blocks. It is extended on demand and never rebuilt, so every caller
+// sees the same entries.
+func LongChain(c Codec, logID string, n int) ([]iface.IPFSLogEntry, [][]byte) {
+	longChains.mu.Lock()
+	defer longChains.mu.Unlock()
+	key := fmt.Sprintf("%d/%s", c, logID)
+	if len(longChains.es[key]) < n {
+		// (re)built from scratch; signatures are deterministic, so a longer rebuild has the same prefix
+		st := fakeipfs.NewStore()
+		l, err := NewLog(st.API(), 4, logID, OrderLWW, IO(c, 0), nil)
+		if err != nil {
+			panic(err)
+		}
+		var es []iface.IPFSLogEntry
+		var rw [][]byte
+		size := n
+		if size < 1300 {
+			size = 1300
+		}
+		for i := 0; i < size; i++ {
+			e, err := l.Append(context.Background(), []byte(fmt.Sprintf("long-%d", i)), &ipfslog.AppendOptions{PointerCount: []int{1, 1, 4, 16, 64}[i%5]})
+			if err != nil {
+				panic(err)
+			}
+			raw, _ := st.Raw(e.GetHash())
+			es = append(es, e)
+			rw = append(rw, raw)
+		}
+		longChains.es[key], longChains.rw[key] = es, rw
+	}
+	return longChains.es[key][:n:n], longChains.rw[key][:n:n]
 }
